@@ -277,10 +277,9 @@ def r2_attr_copy(report, repo):
   stores = [n for n in g.nodes if n.kind == 'stmt' and isinstance(
       n.ast, ast.Assign) and isinstance(n.ast.targets[0], ast.Subscript) and
             dotted(n.ast.targets[0].value) in kwn]
-  ok = len(stores) == 1
+  ok = len(stores) >= 1
   if ok:
-    v = stores[0].ast.value
-    defs = lib.resolve_local(f, v.id) if isinstance(v, ast.Name) else [v]
+    defs = [d for st_ in stores for d in lib.resolved(f, st_.ast.value)]
     ok = bool(defs) and all(
         isinstance(d, ast.Call) and call_name(d) in ('copy.copy', 'attr_copy',
                                                      'copy.deepcopy')
